@@ -71,6 +71,18 @@ func main() {
 		}
 		return
 	}
+	if *prop == "symbols" {
+		// the symbol table the rename resolution compares against (internal/core/baseline_symbols.json)
+		pg, err := core.Load(core.Config{Name: "default", Dir: *repo})
+		if err != nil {
+			fmt.Println("load:", err)
+			os.Exit(2)
+		}
+		syms, _ := pg.CollectSymbols()
+		b, _ := json.MarshalIndent(syms, "", " ")
+		fmt.Println(string(b))
+		return
+	}
 	if *prop == "all" {
 		// mutant / seed runs: load once, run every property's rules, one line per reported obligation
 		runAll(*repo, *verif, *overlayFile)
